@@ -587,6 +587,98 @@ let elixir_case (line : string) : string =
        | _ -> "None")
   | x -> failwith ("bad elixir op " ^ x)
 
+(* ---- domain serde (C15) ---- *)
+let rec rd_ty (t : toks) : ty =
+  let rec tys n = if n = 0 then [] else let x = rd_ty t in x :: tys (n - 1) in
+  let rec fields n = if n = 0 then [] else let nm = bytes_of_hex (next t) in let x = rd_ty t in (nm, x) :: fields (n - 1) in
+  match next t with
+  | "B" -> TyBool | "I8" -> TyInt I8 | "I16" -> TyInt I16 | "I32" -> TyInt I32 | "I64" -> TyInt I64
+  | "U8" -> TyInt U8 | "U16" -> TyInt U16 | "U32" -> TyInt U32 | "U64" -> TyInt U64
+  | "F32" -> TyF32 | "F64" -> TyF64 | "C" -> TyChar | "Str" -> TyString | "Unit" -> TyUnit
+  | "O" -> TyOption (rd_ty t)
+  | "T" -> let n = int_of_string (next t) in TyTuple (tys n)
+  | "V" -> TyVec (rd_ty t)
+  | "M" -> let k = rd_ty t in let v = rd_ty t in TyMap (k, v)
+  | "R" -> let n = int_of_string (next t) in TyStruct (fields n)
+  | "X" -> let m = bytes_of_hex (next t) in let n = int_of_string (next t) in TyElixir (m, fields n)
+  | "E" -> let n = int_of_string (next t) in
+           let rec variants n = if n = 0 then [] else
+             let nm = bytes_of_hex (next t) in
+             let sh = (match next t with
+               | "pu" -> PUnit
+               | "pn" -> PNewtype (rd_ty t)
+               | "pt" -> let k = int_of_string (next t) in PTuple (tys k)
+               | "ps" -> let k = int_of_string (next t) in PStruct (fields k)
+               | x -> failwith ("bad shape " ^ x)) in
+             (nm, sh) :: variants (n - 1) in
+           TyEnum (variants n)
+  | x -> failwith ("bad type token " ^ x)
+let rec rd_val (t : toks) : rval =
+  let rec many n = if n = 0 then [] else let x = rd_val t in x :: many (n - 1) in
+  match next t with
+  | "b" -> RBool (next t = "1")
+  | "z" -> RInt (z_of_dec (next t))
+  | "f" -> RFloat (n_of_hex (next t))
+  | "c" -> RChar (bytes_of_hex (next t))
+  | "s" -> RStr (bytes_of_hex (next t))
+  | "u" -> RUnit
+  | "N" -> RNone
+  | "S" -> RSome (rd_val t)
+  | "T" -> let n = int_of_string (next t) in RTup (many n)
+  | "Q" -> let n = int_of_string (next t) in RSeq (many n)
+  | "M" -> let n = int_of_string (next t) in
+           let rec kvs n = if n = 0 then [] else let k = rd_val t in let v = rd_val t in (k, v) :: kvs (n - 1) in RMap (kvs n)
+  | "R" -> let n = int_of_string (next t) in RRec (many n)
+  | "E" -> let i = n_of_dec (next t) in let n = int_of_string (next t) in RVariant (i, many n)
+  | x -> failwith ("bad value token " ^ x)
+let hex16_of_n (x : n) : string = Printf.sprintf "%016Lx" (int64_of_n x)
+let rec show_val (v : rval) : string =
+  match v with
+  | RBool b -> if b then "b 1" else "b 0"
+  | RInt z -> "z " ^ dec_of_z z
+  | RFloat b -> "f " ^ hex16_of_n b
+  | RChar s -> "c " ^ hex_of_bytes s
+  | RStr s -> "s " ^ hex_of_bytes s
+  | RUnit -> "u"
+  | RNone -> "N"
+  | RSome v -> "S " ^ show_val v
+  | RTup vs -> String.concat " " (("T " ^ string_of_int (List.length vs)) :: List.map show_val vs)
+  | RSeq vs -> String.concat " " (("Q " ^ string_of_int (List.length vs)) :: List.map show_val vs)
+  | RMap kvs ->
+      (* a Rust map: later entries replace earlier ones with the same key; printed sorted by key *)
+      let tbl = Hashtbl.create 16 in
+      List.iter (fun (k, v) -> Hashtbl.replace tbl (show_val k) (show_val v)) kvs;
+      let es = List.sort compare (Hashtbl.fold (fun k v acc -> (k, v) :: acc) tbl []) in
+      String.concat " " (("M " ^ string_of_int (List.length es)) :: List.map (fun (k, v) -> k ^ " " ^ v) es)
+  | RRec vs -> String.concat " " (("R " ^ string_of_int (List.length vs)) :: List.map show_val vs)
+  | RVariant (i, vs) -> String.concat " " (("E " ^ udec_of_n i ^ " " ^ string_of_int (List.length vs)) :: List.map show_val vs)
+let f32_round (bits : n) : n =
+  let x = Int64.float_of_bits (int64_of_n bits) in
+  let y = Int32.float_of_bits (Int32.bits_of_float x) in
+  n_of_hex (Printf.sprintf "%016Lx" (Int64.bits_of_float y))
+let split3 (line : string) : string * string * string =
+  match Str.bounded_split_delim (Str.regexp_string " | ") line 3 with
+  | [a; b; c] -> (a, b, c) | [a; b] -> (a, b, "") | _ -> failwith "bad serde case"
+let show_vopt = function Some v -> show_val v | None -> "ERR"
+let serde_case (line : string) : string =
+  if line = "types" then "types" else
+  let op, tyd, rest = split3 line in
+  let t = rd_ty { l = words tyd } in
+  match op with
+  | "rt" ->
+      let v = rd_val { l = words rest } in
+      if not (rwt false f32_round t v) then "ILLTYPED" else
+      let tm = rser false t v in
+      let mem = show_vopt (rde false f32_round t tm) in
+      let wire = (match encode tm with
+        | EErr _ -> "ENCERR"
+        | EOk b -> (match decode (mk_cfg owned_arms [] []) b with
+            | DOk t2 -> show_vopt (rde false f32_round t t2)
+            | _ -> "ERR")) in
+      Printf.sprintf "term=%s ; mem=%s ; wire=%s" (term_str tm) mem wire
+  | "de" -> show_vopt (rde false f32_round t (term_of_string cmp_owned rest))
+  | x -> failwith ("bad serde op " ^ x)
+
 let () =
   let domain = if Array.length Sys.argv > 1 then Sys.argv.(1) else "" in
   let f = match domain with
@@ -598,6 +690,7 @@ let () =
     | "control" -> control_case
     | "handshake" -> handshake_case
     | "elixir" -> elixir_case
+    | "serde" -> serde_case
     | _ -> prerr_endline ("unknown domain " ^ domain); exit 2 in
   (try
     while true do
